@@ -300,6 +300,9 @@ pub fn text_strategy() -> impl Strategy<Value = String> {
         // scalars under indentation on both sides of its 16-character window, golden documents
         1 => crate::gen::deep_block_strategy().prop_map(|d| crate::gen::render_deep_block(&d)),
         1 => proptest::sample::select(crate::gen::GOLDEN).prop_map(|g| g.to_string()),
+        // line-structured YAML (with and without a final line break) and mutated golden documents
+        3 => (crate::gen::lines_strategy(), any::<bool>()).prop_map(|(l, fb)| crate::gen::render_lines(&l, fb)),
+        2 => crate::gen::mut_strategy(crate::gen::GOLDEN.len()).prop_map(|(i, j, ops)| crate::gen::apply_mutations(crate::gen::GOLDEN[i], crate::gen::GOLDEN[j], &ops)),
     ];
     // a text that itself starts with U+FEFF is the shape of known finding F21 (<= 5 % of cases)
     let prefix = prop_oneof![
@@ -351,7 +354,7 @@ impl Property for C18P {
     }
     fn rule(&self) -> String {
         "(a) proptest texts starting with an ASCII character or a BOM (token soups, Unicode mixes incl. astral and boundary code points, \
-         long UTF-16-expanding texts up to ~4k chars, block scalars under indentation 0..140, the golden documents) encoded with std (as_bytes / encode_utf16) as UTF-8, UTF-8+BOM, UTF-16LE/BE with \
+         long UTF-16-expanding texts up to ~4k chars, block scalars under indentation 0..140, line-structured soups, golden documents and their mutations) encoded with std (as_bytes / encode_utf16) as UTF-8, UTF-8+BOM, UTF-16LE/BE with \
          and without BOM, decoded under a generated trap mode: decode() must equal Yaml::load_from_str(text) (documents or scan error), \
          callback never invoked. (b) every byte string up to the stated length over {00,0A,20,2D,41,80,C3,E4,FE,FF} x 6 trap modes \
          (strict, ignore, replace, callback continue / break with message / break with empty message), plus random, truncated and \
